@@ -1,11 +1,11 @@
 """harnesses - one module per property family; PLAN maps a property to the harnesses that decide it."""
-from . import k04, k11, k12, k13, k14, k16, k17, k20, lfam  # noqa: F401
+from . import k04, k11, k12, k13, k14, k16, k17, k18, k20, lfam  # noqa: F401
 
 PLAN = {
     "C01": ["L01"],
     "C02": ["L02"],
     "C03": ["K03", "K12a", "L03"],
-    "C04": ["K04a", "K16", "L04"],
+    "C04": ["K04a", "K04c", "K16", "L04"],
     "C05": ["L05"],
     "C06": ["K06", "L06"],
     "C07": ["L07"],
@@ -13,7 +13,7 @@ PLAN = {
     "C09": ["L09"],
     "C10": ["L10"],
     "C17": ["K17", "K17b"],
-    "C18": ["L18"],
+    "C18": ["K18a", "K18b", "L18"],
     "C19": ["L19"],
     "C11": ["K11a", "K11b"],
     "C12": ["K12a", "K12b", "K12d"],
